@@ -18,6 +18,7 @@ func init() {
 		},
 		Assumptions: commonAssumptions,
 		Engines:     "ROLE/MIRROR (canonical argument fingerprints), PATH, CODEC, GUARD, TABLE",
+		TagMatrix:   [][]string{{"integration"}},
 		Run:         runC04,
 	})
 }
